@@ -26,7 +26,8 @@ type c15Case struct {
 	Flag     bool     `json:"flag,omitempty"`  // delete -e / insert,infix -e / extract -v
 	Fasta    bool     `json:"fasta,omitempty"` // -F fasta
 	GuestLen int      `json:"guest_len,omitempty"`
-	Twice    bool     `json:"twice,omitempty"` // the input stream holds the record twice: both copies must be treated alike
+	Guests   int      `json:"guests,omitempty"` // insert, infix: this many further guest records follow the first in the guest stream
+	Twice    bool     `json:"twice,omitempty"`  // the input stream holds the record twice: both copies must be treated alike
 }
 
 type mRegion struct {
@@ -347,12 +348,23 @@ func c15Check(c c15Case) *Violation {
 		}
 		return nil
 	case "insert", "infix":
-		guest := idBytes(44, c.GuestLen)
-		guestFeats := []Feat{{Key: "misc_feature", Loc: lrg(0, maxInt(c.GuestLen, 1)), Quals: [][]string{{"label", "guest"}}}}
-		if c.GuestLen == 0 {
-			guestFeats = nil
+		// the guest stream holds 1 + c.Guests records: every one of them is inserted into the unchanged input
+		nG := 1 + c.Guests
+		guestLens := make([]int, nG)
+		guests := make([][]byte, nG)
+		var guestRec []byte
+		for g := 0; g < nG; g++ {
+			gl := c.GuestLen
+			if g > 0 {
+				gl = 1 + (c.GuestLen+3*g)%5
+			}
+			guestLens[g], guests[g] = gl, idBytes(44+7*g, gl)
+			guestFeats := []Feat{{Key: "misc_feature", Loc: lrg(0, maxInt(gl, 1)), Quals: [][]string{{"label", "guest"}}}}
+			if gl == 0 {
+				guestFeats = nil
+			}
+			guestRec = append(guestRec, c15RecordNamed(fmt.Sprintf("GUEST%d", g), false, gl, 44+7*g, guestFeats)...)
 		}
-		guestRec := c15RecordNamed("GUEST", false, c.GuestLen, 44, guestFeats)
 		var recs []outRec
 		var v *Violation
 		if c.Cmd == "insert" {
@@ -381,77 +393,80 @@ func c15Check(c c15Case) *Violation {
 			}
 			return k
 		}
-		var want []byte
-		for p := 0; p <= c.L; p++ {
-			for _, q := range positions {
-				if q == p {
-					want = append(want, guest...)
-				}
-			}
-			if p < c.L {
-				want = append(want, seqBytes[p])
-			}
+		if len(recs) != nG {
+			return viol("records", "%s: %d output records for %d guest records", what, len(recs), nG)
 		}
-		if len(recs) != 1 {
-			return viol("records", "%s: %d output records", what, len(recs))
-		}
-		if !bytes.Equal(recs[0].bytes, want) {
-			return viol("bytes", "%s: residues %q, want %q (input %q, guest %q, 5' positions %v)", what, recs[0].bytes, want, seqBytes, guest, positions)
-		}
-		if c.Fasta {
-			return nil
-		}
-		got, ok := featureResidues(recs[0].feats)
-		if !ok {
-			return viol("malformed", "%s: malformed location in the output", what)
-		}
-		guestPos := map[int]bool{}
-		{
-			k := 0
+		for g, rec := range recs {
+			gl := guestLens[g]
+			var want []byte
 			for p := 0; p <= c.L; p++ {
 				for _, q := range positions {
 					if q == p {
-						for j := 0; j < c.GuestLen; j++ {
-							guestPos[k+j] = true
-						}
-						k += c.GuestLen
+						want = append(want, guests[g]...)
 					}
 				}
-				k++
-			}
-		}
-		for _, f := range c.Feats {
-			var exp []posStrand
-			for _, ps := range origSets[f.label()] {
-				exp = append(exp, posStrand{ps.Pos + c.GuestLen*count(ps.Pos), ps.Rev})
-			}
-			g := got[f.label()]
-			if !c.Flag {
-				if fmt.Sprint(g) != fmt.Sprint(exp) && !(len(g) == 0 && len(exp) == 0) {
-					return viol("feature", "%s: host feature %s (%s) denotes %v, want %v", what, f.label(), f.Loc, g, exp)
+				if p < c.L {
+					want = append(want, seqBytes[p])
 				}
+			}
+			if !bytes.Equal(rec.bytes, want) {
+				return viol("bytes", "%s: residues %q, want %q (input %q, guest %d of %d %q, 5' positions %v)", what, rec.bytes, want, seqBytes, g+1, nG, guests[g], positions)
+			}
+			if c.Fasta {
 				continue
 			}
-			// embed: the original residues plus, possibly, guest residues
-			have := map[posStrand]bool{}
-			for _, x := range g {
-				have[x] = true
+			got, ok := featureResidues(rec.feats)
+			if !ok {
+				return viol("malformed", "%s: malformed location in the output", what)
 			}
-			for _, x := range exp {
-				if !have[x] {
-					return viol("feature", "%s: host feature %s (%s) lost residue %v (denotes %v)", what, f.label(), f.Loc, x, g)
+			guestPos := map[int]bool{}
+			{
+				k := 0
+				for p := 0; p <= c.L; p++ {
+					for _, q := range positions {
+						if q == p {
+							for j := 0; j < gl; j++ {
+								guestPos[k+j] = true
+							}
+							k += gl
+						}
+					}
+					k++
 				}
-				delete(have, x)
 			}
-			for x := range have {
-				if !guestPos[x.Pos] {
-					return viol("feature", "%s: host feature %s (%s) gained host residue %v", what, f.label(), f.Loc, x)
+			for _, f := range c.Feats {
+				var exp []posStrand
+				for _, ps := range origSets[f.label()] {
+					exp = append(exp, posStrand{ps.Pos + gl*count(ps.Pos), ps.Rev})
+				}
+				g := got[f.label()]
+				if !c.Flag {
+					if fmt.Sprint(g) != fmt.Sprint(exp) && !(len(g) == 0 && len(exp) == 0) {
+						return viol("feature", "%s: host feature %s (%s) denotes %v, want %v", what, f.label(), f.Loc, g, exp)
+					}
+					continue
+				}
+				// embed: the original residues plus, possibly, guest residues
+				have := map[posStrand]bool{}
+				for _, x := range g {
+					have[x] = true
+				}
+				for _, x := range exp {
+					if !have[x] {
+						return viol("feature", "%s: host feature %s (%s) lost residue %v (denotes %v)", what, f.label(), f.Loc, x, g)
+					}
+					delete(have, x)
+				}
+				for x := range have {
+					if !guestPos[x.Pos] {
+						return viol("feature", "%s: host feature %s (%s) gained host residue %v", what, f.label(), f.Loc, x)
+					}
 				}
 			}
-		}
-		if c.GuestLen > 0 {
-			if n := len(byLabel(recs[0].feats)["guest"]); n != len(positions) {
-				return viol("feature", "%s: %d copies of the guest feature for %d insertions", what, n, len(positions))
+			if gl > 0 {
+				if n := len(byLabel(rec.feats)["guest"]); n != len(positions) {
+					return viol("feature", "%s: %d copies of the guest feature for %d insertions", what, n, len(positions))
+				}
 			}
 		}
 		return nil
@@ -742,6 +757,9 @@ func c15Classify(c c15Case) (bool, []string) {
 	if c.Twice {
 		labels = append(labels, "two-records")
 	}
+	if c.Guests > 0 {
+		labels = append(labels, "several-guests")
+	}
 	var regions []mRegion
 	for _, lt := range c.Locators {
 		rr, ok := resolveLocator(lt, c.L, c.Feats)
@@ -790,6 +808,9 @@ func c15Gen(t *rapid.T) c15Case {
 	c := c15Case{Cmd: rapid.SampledFrom([]string{"delete", "insert", "infix", "split", "rotate", "extract", "extract"}).Draw(t, "cmd"),
 		L: L, Circ: rapid.Bool().Draw(t, "circ"), Flag: rapid.IntRange(0, 2).Draw(t, "flag") == 0, Fasta: rapid.IntRange(0, 5).Draw(t, "fasta") == 0,
 		GuestLen: drawCount(t, 1, 5, 300, "guestlen"), Twice: rapid.IntRange(0, 2).Draw(t, "twice") == 0}
+	if c.Cmd == "insert" || c.Cmd == "infix" {
+		c.Guests = rapid.SampledFrom([]int{0, 0, 1, 2, 3}).Draw(t, "guests")
+	}
 	// 1..6 labelled features: overlapping, nested, unsorted, complement, joins (disjoint ascending parts)
 	n := rapid.IntRange(1, 6).Draw(t, "nfeat")
 	keys := []string{"gene", "CDS", "misc_feature", "gene"}
@@ -866,6 +887,9 @@ func TestC15(t *testing.T) {
 						continue
 					}
 					if !e.try(c15Case{Cmd: cmd, L: 56, Circ: circ, Feats: feats, Locators: []string{loc}, Flag: flag, GuestLen: 3, Twice: circ != flag}) {
+						return
+					}
+					if (cmd == "insert" || cmd == "infix") && !e.try(c15Case{Cmd: cmd, L: 56, Circ: circ, Feats: feats, Locators: []string{loc}, Flag: flag, GuestLen: 3, Guests: 2, Twice: circ == flag}) {
 						return
 					}
 				}
